@@ -14,6 +14,8 @@
  *   srcv <szx> <bodyLen> <seed> <size1|-> <num:m[:len],…>   coap_handle_request_put_block sequence (SINGLE_BODY)
  *   srcv2 <maxBlk> <bodyLen> <seed> <size1|-> <num.m.szx,…>  the same with a block size per step and a server block size limit
  *   crcv <single> <bodyLen> <seed> <size2|-> <num.m.szx.etag.fmt[.len],…>   coap_handle_response_get_block sequence (client, Block2)
+ *   xmit2 <szx> <bodyLen> <seed> <mtu2> <num.szx,…>        coap_add_data_large_response + coap_handle_request_send_block sequence (server, Block2)
+ *   xmit1 <cszx|-> <bodyLen> <seed> <mtu> <code.num.szx|code,…>   coap_add_data_large_request + coap_send + coap_handle_response_send_block sequence (client, Block1)
  *
  * Layer B (H-sim, sim_core.h): a real client and a real server context, virtual clock, scripted network:
  *
@@ -450,6 +452,154 @@ static void do_crcv(int single, size_t bodyLen, unsigned seed, long size2, char 
   free(body);
 }
 
+/* ---- sender side (lg_xmit) ---- */
+static void print_block_msg(coap_pdu_t *p, coap_option_num_t optnum) {
+  coap_block_b_t b;
+  size_t l = 0; const uint8_t *d = NULL;
+  coap_get_data(p, &l, &d);
+  if (coap_get_block_b(NULL, p, optnum, &b)) printf("b%u.%u.%u:%zu:%08x", b.num, b.m, b.szx, l, sim_fnv(d, l));
+  else printf("n:%zu:%08x", l, sim_fnv(d, l));
+}
+
+/* xmit2 <szx> <bodyLen> <seed> <mtu2> <num.szx,…> : the SERVER sending a body with Block2.  The application answers a
+ * GET carrying Block2 (0,0,szx) with coap_add_data_large_response() on a 1152-byte response PDU (printed first, with
+ * lg=<blk_size | -1>), then every item is a GET with Block2 (num,0,szx) given to the real coap_handle_request_send_block()
+ * with a fresh response PDU of max size <mtu2>; per item: p (returned 0: passed to the application), c<code> (error
+ * response), b<num>.<m>.<szx>:<len>:<hash> (block response), then /<lg_xmit->offset | ->.  rel = release callback runs. */
+static void do_xmit2(unsigned szx, size_t bodyLen, unsigned seed, size_t mtu2, char *seq) {
+  static const uint8_t tok[4] = {0xa1, 0xa1, 0xa1, 0xa1};
+  sim_reset();
+  sim_log_enabled = 0;
+  uint8_t *body = mk_body(bodyLen, seed), buf[4];
+  coap_context_t *ctx = sim_new_context();
+  coap_session_t *s = sim_new_client(ctx, 5683);
+  coap_resource_t *res = coap_resource_init(coap_make_str_const("b"), 0);
+  coap_pdu_t *req, *rsp;
+  char *tk, *save = NULL;
+  int k = 0, r;
+  coap_register_request_handler(res, COAP_REQUEST_GET, hnd_dummy);
+  coap_add_resource(ctx, res);
+  coap_context_set_block_mode(ctx, COAP_BLOCK_USE_LIBCOAP | COAP_BLOCK_SINGLE_BODY);
+  s->block_mode = ctx->block_mode;
+  req = coap_pdu_init(COAP_MESSAGE_CON, COAP_REQUEST_CODE_GET, 1, 256);
+  coap_add_token(req, 4, tok);
+  coap_add_option(req, COAP_OPTION_URI_PATH, 1, (const uint8_t *)"b");
+  coap_add_option(req, COAP_OPTION_BLOCK2, coap_encode_var_safe(buf, sizeof(buf), szx), buf);
+  rsp = coap_pdu_init(COAP_MESSAGE_ACK, COAP_RESPONSE_CODE_CONTENT, 1, 1152);
+  coap_add_token(rsp, 4, tok);
+  rel_count = 0;
+  r = coap_add_data_large_response(res, s, req, rsp, NULL, COAP_MEDIATYPE_APPLICATION_OCTET_STREAM, -1, 0, bodyLen, body, rel_cb, NULL);
+  if (!r) printf("fail");
+  else print_block_msg(rsp, COAP_OPTION_BLOCK2);
+  printf(" lg=%d", s->lg_xmit ? (int)s->lg_xmit->blk_size : -1);
+  coap_delete_pdu(req); coap_delete_pdu(rsp);
+  for (tk = strcmp(seq, "-") ? strtok_r(seq, ",", &save) : NULL; tk; tk = strtok_r(NULL, ",", &save), k++) {
+    unsigned num, sz;
+    int ret;
+    if (sscanf(tk, "%u.%u", &num, &sz) != 2 || sz > 6 || num > 0xFFFFF) { printf(" bad-op"); break; }
+    req = coap_pdu_init(COAP_MESSAGE_CON, COAP_REQUEST_CODE_GET, (coap_mid_t)(2 + k), 256);
+    coap_add_token(req, 4, tok);
+    coap_add_option(req, COAP_OPTION_URI_PATH, 1, (const uint8_t *)"b");
+    coap_add_option(req, COAP_OPTION_BLOCK2, coap_encode_var_safe(buf, sizeof(buf), (num << 4) | sz), buf);
+    rsp = coap_pdu_init(COAP_MESSAGE_ACK, 0, (coap_mid_t)(2 + k), mtu2);
+    if (!rsp || !coap_add_token(rsp, 4, tok)) { printf(" nopdu"); coap_delete_pdu(req); if (rsp) coap_delete_pdu(rsp); break; }
+    coap_lock_lock(ctx, break);
+    ret = coap_handle_request_send_block(s, req, rsp, res, NULL);
+    coap_lock_unlock(ctx);
+    fputc(k ? ',' : ' ', stdout);
+    if (ret == 0) printf("p");
+    else if (COAP_RESPONSE_CLASS(rsp->code) != 2) printf("c%d", (int)rsp->code);
+    else print_block_msg(rsp, COAP_OPTION_BLOCK2);
+    if (s->lg_xmit) printf("/%zu", s->lg_xmit->offset); else printf("/-");
+    coap_delete_pdu(req); coap_delete_pdu(rsp);
+  }
+  sim_free_all(0);
+  sim_log_enabled = 1;
+  printf(" rel=%d", rel_count);
+  free(body);
+}
+
+/* xmit1 <cszx|-> <bodyLen> <seed> <mtu> <code.num.szx|code,…> : the CLIENT sending a body with Block1.  The application
+ * PUTs (NON, 4-byte token, Uri-Path "b", optional Block1 (0,0,cszx)) with coap_add_data_large_request() and coap_send() on a
+ * session with MTU <mtu> (first datagram printed; `fail` if refused).  Every item is a response (code as a number, e.g.
+ * 95 = 2.31, 68 = 2.04, 141 = 4.13) with the token of the datagram sent last and, if given, Block1 (num,1,szx), handed to
+ * the real coap_handle_response_send_block(); per item: the datagram transmitted in reaction (b<num>.<m>.<szx>:<len>:<hash>),
+ * or i (returned 1, nothing sent), f (returned 0: handler to be called), F (the same with the code rewritten to 5.00);
+ * then /<blk_size>.<offset>.<last_block> of the lg_xmit or /- if it is gone.  rel = release callback runs. */
+static uint8_t x1_tok[8]; static size_t x1_tkl;
+static char x1_buf[96];
+static void x1_on_tx(const sim_dgram_t *d) {
+  coap_pdu_t *p = coap_pdu_init(0, 0, 0, 4096);
+  if (p && coap_pdu_parse(COAP_PROTO_UDP, d->data, d->len, p)) {
+    coap_block_b_t b;
+    size_t l = 0; const uint8_t *dd = NULL;
+    coap_get_data(p, &l, &dd);
+    if (coap_get_block_b(NULL, p, COAP_OPTION_BLOCK1, &b))
+      snprintf(x1_buf, sizeof(x1_buf), "b%u.%u.%u:%zu:%08x", b.num, b.m, b.szx, l, sim_fnv(dd, l));
+    else
+      snprintf(x1_buf, sizeof(x1_buf), "n:%zu:%08x", l, sim_fnv(dd, l));
+    x1_tkl = d->tkl; memcpy(x1_tok, d->token, d->tkl);
+  } else
+    snprintf(x1_buf, sizeof(x1_buf), "unparsable");
+  if (p) coap_delete_pdu(p);
+}
+
+static void do_xmit1(int cszx, size_t bodyLen, unsigned seed, unsigned mtu, char *seq) {
+  static const uint8_t tok[4] = {0xa1, 0xa1, 0xa1, 0xa1};
+  sim_reset();
+  sim_log_enabled = 0;
+  uint8_t *body = mk_body(bodyLen, seed), buf[4];
+  coap_context_t *ctx = sim_new_context();
+  coap_session_t *s = sim_new_client(ctx, 5683);
+  coap_pdu_t *p;
+  char *tk, *save = NULL;
+  int k = 0;
+  coap_context_set_block_mode(ctx, COAP_BLOCK_USE_LIBCOAP | COAP_BLOCK_SINGLE_BODY);
+  s->block_mode = ctx->block_mode;
+  coap_session_set_mtu(s, mtu);
+  sim_tx_hook = x1_on_tx;
+  x1_buf[0] = 0; x1_tkl = 0;
+  rel_count = 0;
+  p = coap_new_pdu(COAP_MESSAGE_NON, COAP_REQUEST_CODE_PUT, s);
+  coap_add_token(p, 4, tok);
+  coap_add_option(p, COAP_OPTION_URI_PATH, 1, (const uint8_t *)"b");
+  if (cszx >= 0) coap_add_option(p, COAP_OPTION_BLOCK1, coap_encode_var_safe(buf, sizeof(buf), (unsigned)cszx), buf);
+  if (!coap_add_data_large_request(s, p, bodyLen, body, rel_cb, NULL)) {
+    printf("fail");
+    coap_delete_pdu(p);
+    goto out;
+  }
+  if (coap_send(s, p) == COAP_INVALID_MID) { printf("send-fail"); goto out; }
+  printf("%s", x1_buf[0] ? x1_buf : "-");
+  printf(" lg=%d", s->lg_xmit ? (int)s->lg_xmit->blk_size : -1);
+  for (tk = strcmp(seq, "-") ? strtok_r(seq, ",", &save) : NULL; tk; tk = strtok_r(NULL, ",", &save), k++) {
+    unsigned code, num = 0, sz = 0;
+    int nf = sscanf(tk, "%u.%u.%u", &code, &num, &sz), ret;
+    coap_pdu_t *rcvd;
+    if ((nf != 1 && nf != 3) || sz > 6 || num > 0xFFFFF || code > 255) { printf(" bad-op"); break; }
+    rcvd = coap_pdu_init(COAP_MESSAGE_NON, (coap_pdu_code_t)code, (coap_mid_t)(300 + k), 256);
+    coap_add_token(rcvd, x1_tkl, x1_tok);
+    if (nf == 3) coap_add_option(rcvd, COAP_OPTION_BLOCK1, coap_encode_var_safe(buf, sizeof(buf), (num << 4) | 8 | sz), buf);
+    x1_buf[0] = 0;
+    coap_lock_lock(ctx, break);
+    ret = coap_handle_response_send_block(s, NULL, rcvd);
+    coap_lock_unlock(ctx);
+    fputc(k ? ',' : ' ', stdout);
+    if (x1_buf[0]) printf("%s", x1_buf);
+    else if (ret == 1) printf("i");
+    else printf(rcvd->code == COAP_RESPONSE_CODE(500) ? "F" : "f");
+    if (s->lg_xmit) printf("/%u.%zu.%d", (unsigned)s->lg_xmit->blk_size, s->lg_xmit->offset, s->lg_xmit->last_block);
+    else printf("/-");
+    coap_delete_pdu(rcvd);
+  }
+out:
+  sim_tx_hook = NULL;
+  sim_free_all(0);
+  sim_log_enabled = 1;
+  printf(" rel=%d", rel_count);
+  free(body);
+}
+
 #include "block_sim.h"
 
 static void step(char *line) {
@@ -485,6 +635,10 @@ static void step(char *line) {
              strcmp(w[4], "-") ? atol(w[4]) : -1, w[5]);
   } else if (!strcmp(w[0], "crcv") && n == 6) {
     do_crcv(atoi(w[1]), strtoull(w[2], 0, 10), (unsigned)strtoul(w[3], 0, 10), strcmp(w[4], "-") ? atol(w[4]) : -1, w[5]);
+  } else if (!strcmp(w[0], "xmit2") && n == 6) {
+    do_xmit2((unsigned)strtoul(w[1], 0, 10), strtoull(w[2], 0, 10), (unsigned)strtoul(w[3], 0, 10), strtoull(w[4], 0, 10), w[5]);
+  } else if (!strcmp(w[0], "xmit1") && n == 6) {
+    do_xmit1(strcmp(w[1], "-") ? atoi(w[1]) : -1, strtoull(w[2], 0, 10), (unsigned)strtoul(w[3], 0, 10), (unsigned)strtoul(w[4], 0, 10), w[5]);
   } else if (!strcmp(w[0], "xfer")) {
     do_xfer(n, w);
   } else
